@@ -92,10 +92,10 @@ func (f *Dotimes) Call(s *slip.Scope, args slip.List, depth int) slip.Object {
 					}
 					return tr
 				case *GoTo:
-					for i++; i < len(args); i++ {
-						if args[i] == tr.Tag {
-							break
-						}
+					// The tag can be before or after the go. If it is not a
+					// tag of this body it belongs to an enclosing tagbody.
+					if i = tagIndex(args, 1, tr.Tag); i < 0 {
+						return tr
 					}
 				}
 			}
